@@ -96,10 +96,13 @@ public:
         // what the offer announces: 0 size+hash, 1 size only, 2 hash only, 3 neither
         k[QStringLiteral("announce")] = r.weighted({ 40, 35, 15, 10 });
         // fault on the block sequence (topology 0) / on the acknowledgements (topology 1)
-        const int fault = r.weighted({ 30, 9, 9, 9, 9, 8, 6, 6, 6, 4, 4 });
+        const int fault = r.weighted({ 28, 9, 9, 9, 9, 8, 6, 6, 6, 4, 4, 10 });
+        // 11: a third party (other account / other resource of the sender's account / its bare JID) injects a block with the expected sequence number, optionally followed by a close
         // 0 none, 1 drop block, 2 duplicate, 3 swap adjacent, 4 bit flip, 5 early close, 6 wrong sid, 7 wrong sender, 8 link cut, 9 device write error, 10 device short write
         k[QStringLiteral("fault")] = fault;
         k[QStringLiteral("faultAt")] = r.range(0, 12);
+        k[QStringLiteral("who")] = r.uniform(3);          // which wrong sender: 0 another account, 1 another resource of the sender's account, 2 the sender's bare JID
+        k[QStringLiteral("forgedClose")] = r.chance(0.5);
         k[QStringLiteral("onError")] = r.chance(0.6) ? 0 : 1;   // the scripted sender aborts (0) or carries on (1) after a rejected block
         k[QStringLiteral("contentSeed")] = (qint64)(r.next() & 0x7fffffff);
         p.ops.append(mkop(QStringLiteral("connect")));
@@ -136,6 +139,9 @@ public:
             if (fault == 5 && announce == 3) {
                 fault = 0;
             }
+            static const char *wrongSenders[] = { "mallory@stranger.example/x", "bob@contacts.example/tablet", "bob@contacts.example" };
+            const QByteArray wrongSender = wrongSenders[plan.knob(QStringLiteral("who")) % 3];
+            const bool forgedClose = plan.knob(QStringLiteral("forgedClose")) == 1;
             if (fault != 0 && fault != 8 && fault < 9 && nBlocks == 0) {
                 fault = 0;   // nothing to tamper with
             }
@@ -235,6 +241,7 @@ public:
                             QByteArray payload;
                             QByteArray sid;
                             QByteArray from;
+                            bool injected = false;
                         };
                         QList<Blk> seqn;
                         for (int i = 0; i < nBlocks; ++i) {
@@ -288,7 +295,7 @@ public:
                             res.faults[QStringLiteral("block_with_wrong_sid")]++;
                             break;
                         case 7:
-                            seqn[at].from = "mallory@stranger.example/x";
+                            seqn[at].from = wrongSender;
                             faultFired = true;
                             streamChanged = true;
                             res.faults[QStringLiteral("block_from_wrong_sender")]++;
@@ -296,6 +303,14 @@ public:
                         case 8:
                             cutAfter = true;
                             break;
+                        case 11: {
+                            const int pos = faultAt % (nBlocks + 1);
+                            Blk forged { pos & 0xffff, content.bytes(block), sid, wrongSender, true };
+                            seqn.insert(pos, forged);
+                            faultFired = true;
+                            res.faults[QStringLiteral("third_party_injects_block")]++;
+                            break;
+                        }
                         case 9:
                         case 10:
                             faultFired = nBlocks > 0;
@@ -310,6 +325,18 @@ public:
                         for (const auto &b : std::as_const(seqn)) {
                             const QByteArray id = "d" + QByteArray::number(++idNo);
                             peerSend("<iq type='set' id='" + id + "' from='" + b.from + "' to='" + to + "'><data xmlns='" + NS_IBB + "' seq='" + QByteArray::number(b.seq) + "' sid='" + b.sid + "'>" + b.payload.toBase64() + "</data></iq>");
+                            if (b.injected) {
+                                const QString ack = takeReply(id);
+                                if (ack == QLatin1String("result")) {
+                                    res.probes[QStringLiteral("injected_block_acknowledged")]++;
+                                }
+                                if (forgedClose) {
+                                    peerSend("<iq type='set' id='fclose' from='" + b.from + "' to='" + to + "'><close xmlns='" + NS_IBB + "' sid='" + sid + "'/></iq>");
+                                    takeReply("fclose");
+                                    res.faults[QStringLiteral("third_party_sends_close")]++;
+                                }
+                                continue;
+                            }
                             ++sentBlocks;
                             const QString ack = takeReply(id);
                             if (ack != QLatin1String("result") && b.sid == sid && b.from == kPeer) {
@@ -348,9 +375,14 @@ public:
                     res.probes[QStringLiteral("truncation_no_receiver_could_notice")]++;
                 }
                 if (jobFinished && jobError == QXmppTransferJob::NoError && !exact && !undetectable) {
-                    static const char *names[] = { "none", "block_dropped", "block_duplicated", "blocks_swapped", "bit_flip", "early_close", "wrong_sid", "wrong_sender", "link_cut", "device_write_error", "device_short_write" };
+                    static const char *names[] = { "none", "block_dropped", "block_duplicated", "blocks_swapped", "bit_flip", "early_close", "wrong_sid", "wrong_sender", "link_cut", "device_write_error", "device_short_write", "third_party_block" };
                     res.violations.append(Violation { QStringLiteral("success_with_wrong_bytes"), QStringLiteral("C19:receiver_reports_success_but_copy_differs:%1:%2").arg(QLatin1String(names[fault]), QLatin1String(announceNames[announce & 3])),
                                                       QStringLiteral("the receiver finished with NoError but holds %1 bytes that differ from the %2 bytes sent (block size %3, fault %4 at %5, announced: %6)").arg(device.data.size()).arg(size).arg(block).arg(QLatin1String(names[fault])).arg(faultAt).arg(shape), 0 });
+                }
+                // stanzas of a third party must leave the transfer alone: the genuine stream is intact and must succeed
+                if (fault == 11 && job && (!jobFinished || jobError != QXmppTransferJob::NoError || !exact)) {
+                    res.violations.append(Violation { QStringLiteral("third_party_disturbed_transfer"), QStringLiteral("C19:stanza_of_a_third_party_disturbed_the_transfer:%1").arg(QString::fromLatin1(wrongSender).contains(QLatin1String("mallory")) ? QStringLiteral("other_account") : QStringLiteral("same_account")),
+                                                      QStringLiteral("%1 injected a block (and %2close) into an otherwise intact transfer; the receiver ended with finished=%3 error=%4 and %5/%6 bytes, exact=%7").arg(QString::fromLatin1(wrongSender), forgedClose ? QString() : QStringLiteral("no ")).arg(jobFinished).arg(jobError).arg(device.data.size()).arg(size).arg(exact), 0 });
                 }
                 if (!faultFired && job && (!jobFinished || jobError != QXmppTransferJob::NoError || !exact)) {
                     res.violations.append(Violation { QStringLiteral("fault_free_transfer_failed"), QStringLiteral("C19:fault_free_transfer_did_not_succeed:%1").arg(nBlocks > 65536 ? QStringLiteral("more_than_65536_blocks") : QStringLiteral("ordinary")),
@@ -360,7 +392,7 @@ public:
                     res.probes[QStringLiteral("transfer_with_more_than_65536_blocks")]++;
                 }
                 res.nontrivial = faultFired ? true : nBlocks >= 2;
-                res.caseKey = QStringLiteral("t0|%1|%2|%3|%4|%5|%6").arg(block).arg(size).arg(announce).arg(fault).arg(faultAt).arg(carryOn);
+                res.caseKey = QStringLiteral("t0|%1|%2|%3|%4|%5|%6").arg(block).arg(size).arg(announce).arg(fault).arg(faultAt).arg(carryOn) + QStringLiteral("|%1|%2").arg(plan.knob(QStringLiteral("who"))).arg(forgedClose);
             } else {
                 // ---------------- real sender -> scripted receiver
                 QBuffer src;
